@@ -225,6 +225,12 @@ def ac_post(ctx, st, result):
     ctx.oblige("post", "cfg'==ov(cfg so far, config file)(the file overrides what came before it)", merges == [("merge", "FILE", "CFG-SO-FAR")] and d["store"]["expr"] == ov("CFG-SO-FAR", "FILE"), note=str(merges))
     sub = [e for e in ctx.events if e[0] in ("parse_path", "parse_string")]
     ctx.oblige("post", "the-file-is-parsed-without-defaults-and-environment(so it only carries its own settings)", len(sub) == 1 and sub[0][1].get("env") is False and sub[0][1].get("defaults") is False)
+    ev = ctx.events
+    def _pos(pred):
+        return next((i for i, e in enumerate(ev) if pred(e)), None)
+    i_in, i_parse, i_out = _pos(lambda e: e[:2] == ("enter", "not_single")), _pos(lambda e: e[0] in ("parse_path", "parse_string")), _pos(lambda e: e[:2] == ("exit-cm", "not_single"))
+    ctx.oblige("post", "the-file-is-parsed-inside-not_single_subcommand(a file with sections for several subcommands and no name must not settle on the first one: the command line may still name another)",
+               None not in (i_in, i_parse, i_out) and i_in < i_parse < i_out)
     ctx.oblige("post", "read-as-a-path-when-it-is-one-else-as-a-string", len(sub) == 1 and sub[0][0] == ("parse_path" if d["is_path"] else "parse_string"))
     ctx.oblige("post", "the-config-path-is-recorded-under-dest", isinstance(d["store"]["cfg"], list) and len(d["store"]["cfg"]) == 1 and d["store"]["cfg"][0] is (d["path_obj"] if d["is_path"] else None))
 
